@@ -57,6 +57,16 @@ func opFiles(fields []string) string {
 		return "HARNESS-ERR " + hx(err.Error())
 	}
 	defer os.RemoveAll(dir)
+	isDir := len(fields) > 3 && fields[3] == "DIR"
+	root := dir
+	if isDir {
+		// the argument of RunFiles is the DIRECTORY `d` (relative to the working directory): the engine lists it
+		// for every command and opens `d/<entry>`
+		dir = filepath.Join(root, "d")
+		if err := os.Mkdir(dir, 0o755); err != nil {
+			return "HARNESS-ERR " + hx(err.Error())
+		}
+	}
 	if fsb != "" {
 		for _, kv := range strings.Split(fsb, ",") {
 			p := strings.SplitN(kv, "=", 2)
@@ -66,11 +76,24 @@ func opFiles(fields []string) string {
 		}
 	}
 	cwd, _ := os.Getwd()
-	os.Chdir(dir)
+	os.Chdir(root)
 	defer os.Chdir(cwd)
 	searched := []string{"f.txt"}
 	if len(fields) > 3 && fields[3] != "" {
 		searched = strings.Split(fields[3], ",")
+	}
+	if isDir {
+		searched = []string{"d"}
+		res := withBudgetN(func() string { return canonMatches(v.RunFiles(searched, modeOf(mode), false)) }, 8)
+		snap := snapshotDir(dir)
+		if snap != "" && snap != "ERR" {
+			parts := strings.Split(snap, ",")
+			for i := range parts {
+				parts[i] = "d/" + parts[i]
+			}
+			snap = strings.Join(parts, ",")
+		}
+		return "AST " + v.VerifAst() + "\tRES " + res + "\tFS " + snap
 	}
 	res := withBudgetN(func() string { return canonMatches(v.RunFiles(searched, modeOf(mode), false)) }, len(searched))
 	return "AST " + v.VerifAst() + "\tRES " + res + "\tFS " + snapshotDir(dir)
@@ -92,7 +115,15 @@ func init() {
 		if len(c.Fields) > 3 && c.Fields[3] != "" {
 			searched = c.Fields[3]
 		}
-		return c.ID + "\tfiles\t" + ast + "\t" + c.Fields[1] + "\t" + searched + "\t" + c.Fields[2], true
+		fsb := c.Fields[2]
+		if searched == "DIR" && fsb != "" {
+			parts := strings.Split(fsb, ",")
+			for i := range parts {
+				parts[i] = "d/" + parts[i]
+			}
+			fsb = strings.Join(parts, ",")
+		}
+		return c.ID + "\tfiles\t" + ast + "\t" + c.Fields[1] + "\t" + searched + "\t" + fsb, true
 	}
 	propGens["C06"] = func(r *rand.Rand, tier string, st *Stats) []Case {
 		cases := []Case{}
@@ -138,6 +169,14 @@ func init() {
 			case 3:
 				searched = "f.txt,other.txt"
 				st.Features["searched-two-files"]++
+			case 4, 5:
+				// the DIRECTORY is the argument: every command lists it again; a stale f.txt.vored (shorter or longer
+				// than what this run writes) is itself searched after f.txt rewrote it
+				searched = "DIR"
+				if r.Intn(2) == 0 && !strings.Contains(strings.Join(fs, ","), "f.txt.vored=") {
+					fs = append(fs, "f.txt.vored="+hx("x"))
+				}
+				st.Features["searched-directory"]++
 			}
 			for _, mode := range []string{"NEW", "NOTHING", "OVERWRITE"} {
 				cases = append(cases, Case{ID: fmt.Sprintf("f%d.%s", i, mode), Op: "files",
